@@ -1,11 +1,11 @@
 package router
 
 import (
-	"os"
 	"io"
 	"net/http"
 	"net/netip"
 	"net/url"
+	"os"
 	"time"
 
 	"github.com/IrineSistiana/mosproxy/internal/verifrt"
